@@ -147,7 +147,7 @@ def run_cell(args):
         names = [n for n in os.listdir(folder) if n.endswith(".mhl")] if os.path.isdir(folder) else []
         line = {"tid": "time-%d" % k, "i": 0, "zone": zone, "t": t_file, "now": t_now, "size": size, "exit": res.exit_code, "op": {"op": "create"},
                 "exc": "" if res.exception is None or isinstance(res.exception, SystemExit) else "%s: %s" % (type(res.exception).__name__, res.exception),
-                "off_t": true_offset(zone, t_file), "off_now": true_offset(zone, t_now), "dates": [], "flat": [], "flat_exit": -1, "size_written": -1, "fname_ok": False}
+                "off_t": true_offset(zone, t_file), "off_now": true_offset(zone, t_now), "dates": [], "flat": [], "flat_exit": -1, "flat_size": -2, "size_written": -1, "fname_ok": False}
         if names:
             with open(os.path.join(folder, names[0]), "rb") as fh:
                 m = PJ.parse_manifest(fh.read())
@@ -182,6 +182,7 @@ def run_cell(args):
                             fm = PJ.parse_manifest(fh.read())
                         for r in fm.get("files", []):
                             if os.path.basename(r["path"]) == os.path.basename(p):
+                                line["flat_size"] = int(r["size"]) if r.get("size") is not None and str(r["size"]).isdigit() else -1
                                 for what, s_, inst in (("flat hashdate", r["ents"][0]["hashdate"], t_now),):      # (the tool's reader does not read lastmodificationdate back: not carried)
                                     pr = parse_iso(s_)
                                     fl.append({"what": what, "text": s_ or "", "wellformed": pr is not None, "instant": int(pr[0]) if pr else -1,
